@@ -103,6 +103,8 @@ def s2(prog, rep):
         if f is None:
             rep.defer_broken("S2: %s missing" % name)
             continue
+        if not rep.names(f, "s", "eptr", "val", "min", "max", "trailing", *(["typemax"] if has_typemax else []), *(["base"] if conv != "strtod" else [])):
+            continue
         calls = list(f.calls(conv))
         ok = len(calls) == 1 and strip_ids(norm(calls[0].arg(0))) == V("s") and strip_ids(norm(calls[0].arg(1))) == ("&", V("eptr"))
         if ok and conv != "strtod":
@@ -158,6 +160,8 @@ def s2(prog, rep):
 
 def s3(prog, rep):
     f = prog.func("util/humansize.c", "humansize_parse")
+    if not rep.names(f, "state", "multiplier"):
+        return
     sz = ("*", ("v", f.params[1]["name"], f.params[1]["id"]))
     n = 0
     for e in f.all_elems():
